@@ -369,13 +369,34 @@ func Check(id, tier string) int {
 			tagSeen[g.Tag] = true
 		}
 	}
+	// A required clause that generated no obligation: if every root was explored without an engine error, the clause's
+	// anchor (a call, a map update, a loop) is no longer reached in its function - the code the clause was written
+	// about has changed - and the clause is reported as violated (no failing input); if the engine itself gave up
+	// somewhere (budget, unsupported construct, unknown function) it stays an engine error (undecided).
+	var violations []string
+	cleanRun := len(res.engineErrors) == 0
 	for _, t := range cfg.Tags {
-		if !tagSeen[t] {
-			res.engineErrors = append(res.engineErrors, "required clause "+t+" generated no obligation (function renamed, removed, or contract missing)")
+		if tagSeen[t] {
+			continue
 		}
+		if !cleanRun {
+			res.engineErrors = append(res.engineErrors, "required clause "+t+" generated no obligation (function renamed, removed, or contract missing)")
+			continue
+		}
+		replayDir := filepath.Join(verifDir, "replays", id)
+		if d := os.Getenv("GOVC_REPLAY_DIR"); d != "" {
+			replayDir = filepath.Join(d, id)
+		}
+		os.MkdirAll(replayDir, 0o755)
+		rp := filepath.Join(replayDir, sanitize("clause_"+t)+".json")
+		rec := map[string]interface{}{"property": id, "obligation": "clause:" + t, "kind": "missing-clause", "solver_status": "not generated",
+			"solver_output": "the contract clause tagged " + t + " generated no obligation although every root was explored without an engine error: the program point it is attached to (call / map update / loop / function exit) is no longer reached in the function under contract", "replay_confirms": false}
+		b, _ := json.MarshalIndent(rec, "", " ")
+		os.WriteFile(rp, b, 0o644)
+		violations = append(violations, fmt.Sprintf("VIOLATION property=%s replay=%s obligation=clause:%s no-failing-input-found", id, rp, t))
+		res.obligations++
 	}
 	// classify
-	var violations []string
 	var knownHit []string
 	knownRefuted := 0
 	replayDir := filepath.Join(verifDir, "replays", id)
